@@ -133,6 +133,11 @@ class MiniEval:
             return v
         if isinstance(e, ast.UnaryOp) and isinstance(e.op, ast.Not):
             return not self.ev(e.operand)
+        if isinstance(e, ast.UnaryOp) and isinstance(e.op, (ast.USub, ast.UAdd)):
+            v = self.ev(e.operand)
+            if isinstance(v, bool) or not isinstance(v, (int, float)):
+                raise _Fault('TypeError')
+            return -v if isinstance(e.op, ast.USub) else v
         if isinstance(e, ast.IfExp):
             return self.ev(e.body) if self.ev(e.test) else self.ev(e.orelse)
         if isinstance(e, ast.Compare):
@@ -183,6 +188,12 @@ class MiniEval:
     def assign(self, target, value):
         if isinstance(target, ast.Name):
             self.env[target.id] = value
+        elif isinstance(target, ast.Attribute):
+            key = norm(target)
+            hook = self.env.get('__setattr__')
+            if callable(hook):
+                hook(key, value)
+            self.env[key] = value
         elif isinstance(target, (ast.Tuple, ast.List)):
             if not isinstance(value, (tuple, list)):
                 raise _Fault('TypeError')
